@@ -341,6 +341,12 @@ class Norm:
             return N(t[1])
         if k == "deref":
             return N(t[1])
+        if k == "index" and len(t) == 3:
+            b_, i_ = N(t[1]), (N(t[2]) if isinstance(t[2], tuple) else t[2])
+            # reading back the byte that was just set
+            if isinstance(b_, tuple) and b_ and b_[0] == "SETBYTE" and b_[2] == i_ and isinstance(i_, tuple) and i_[0] == "int":
+                return b_[3]
+            return ("index", b_, i_)
         if k in ("errv", "from_residual", "discr", "variant", "downcast", "is_empty", "index", "apply", "deref",
                  "uninit", "unknown", "overflow", "static"):
             return (k,) + tuple(N(a) if isinstance(a, tuple) else a for a in t[1:])
@@ -465,7 +471,11 @@ class Norm:
         if how[0] == "apply_keystream":
             return st
         if how[0] == "setbyte":
-            return ("SETBYTE", st, N(how[1]), N(how[2]))
+            i_, v_ = N(how[1]), N(how[2])
+            # a second store to the same constant index replaces the first (x[0] &= a; x[0] |= b  ==  x[0] = (x[0] & a) | b)
+            if isinstance(st, tuple) and st and st[0] == "SETBYTE" and st[2] == i_ and isinstance(i_, tuple) and i_[0] == "int":
+                return ("SETBYTE", st[1], i_, v_)
+            return ("SETBYTE", st, i_, v_)
         name = clean_name(how[0])
         idx = how[1]
         others = tuple(N(a) for a in how[2])
